@@ -85,7 +85,7 @@ var props = map[string]Prop{
 	},
 	"C12": {
 		Stages: []Stage{
-			{Name: "random", Test: "TestC12Random", Shards: [2]int{8, 16}, Checks: [2]int{3000, 120000}, Timeout: [2]time.Duration{10 * min, 90 * min}},
+			{Name: "random", Test: "TestC12Random", Shards: [2]int{8, 16}, Checks: [2]int{3000, 40000}, Timeout: [2]time.Duration{10 * min, 90 * min}},
 			{Name: "soups", Test: "TestC12Soups", Shards: [2]int{2, 16}, SeedOffset: 1, Timeout: [2]time.Duration{10 * min, 60 * min}},
 			{Name: "fuzz", Fuzz: "FuzzC12Total", Shards: [2]int{0, 1}, FuzzTime: [2]time.Duration{0, 5 * min}},
 		},
